@@ -90,8 +90,9 @@ structure Brent (α : Type) where
 /-- one pass of the `for _ in 0..MAXITER` body; the Boolean is `false` on `break` (the re-bracketing and the swap
     that precede the convergence test are kept, as in the code) -/
 def brentStep (L : Lits α) (g : α → α) (s : Brent α) : Brent α × Bool :=
-  -- if fb * fc > 0 { c = a; fc = fa; d = b - a; e = d }
-  let s := if s.fb * s.fc > L.zero then { s with c := s.a, fc := s.fa, d := s.b - s.a, e := s.b - s.a } else s
+  -- if (fb > 0 && fc > 0) || (fb < 0 && fc < 0) { c = a; fc = fa; d = b - a; e = d }   (same strict sign; the product
+  -- `fb * fc` of the first version underflowed for tiny event values)
+  let s := if (s.fb > L.zero ∧ s.fc > L.zero) ∨ (s.fb < L.zero ∧ s.fc < L.zero) then { s with c := s.a, fc := s.fa, d := s.b - s.a, e := s.b - s.a } else s
   -- if |fc| < |fb| { a = b; b = c; c = a; fa = fb; fb = fc; fc = fa }
   let s := if Num.abs s.fc < Num.abs s.fb then
       { s with a := s.b, b := s.c, c := s.b, fa := s.fb, fb := s.fc, fc := s.fb } else s
